@@ -5,6 +5,9 @@ open Comdex
 
 /-! ### slice arithmetic -/
 
+theorem toGoInt_small (x : Nat) (h : x < 2 ^ 63) : toGoInt x = (x : Int) := by
+  unfold toGoInt; rw [if_pos h]
+
 theorem sliceBoundsI_bounds (len off batch : Int) (hl : 0 ≤ len) :
     0 ≤ (sliceBoundsI len off batch).1 ∧ (sliceBoundsI len off batch).1 ≤ (sliceBoundsI len off batch).2 ∧
     (sliceBoundsI len off batch).2 ≤ len := by
@@ -558,6 +561,465 @@ theorem borrowLoopV2_spec (e : Env) (ids : List Nat) (w : World) (hn : NodupB w)
       simp only
       have := ih w1 hk.2
       refine ⟨by rw [this.1]; exact hfr.1, fun b hb hl hs => this.2 b (hk.1 b hb hl hs) hl hs⟩
+
+
+
+/-! ### custody and auction book -/
+
+
+/-! balances -/
+theorem Bal.find_append_none (b : Bal) (k : Nat) (d : Int) (h : b.any (·.1 == k) = false) :
+    (b ++ [(k, d)]).find? (·.1 == k) = some (k, d) := by
+  induction b with
+  | nil => simp
+  | cons x xs ih =>
+    simp only [List.any_cons, Bool.or_eq_false_iff] at h
+    simp only [List.cons_append, List.find?_cons, h.1]
+    exact ih h.2
+
+theorem Bal.find_map_self (b : Bal) (k : Nat) (d : Int) (h : b.any (·.1 == k) = true) :
+    ((b.map (fun x => if x.1 == k then (x.1, x.2 + d) else x)).find? (·.1 == k)).map (·.2)
+      = (b.find? (·.1 == k)).map (fun x => x.2 + d) := by
+  induction b with
+  | nil => simp at h
+  | cons x xs ih =>
+    simp only [List.map_cons, List.find?_cons]
+    cases hx : (x.1 == k) with
+    | true => simp [hx]
+    | false =>
+      simp only [List.any_cons, hx, Bool.false_or] at h
+      simp only [Bool.false_eq_true, if_false, hx]
+      exact ih h
+
+theorem Bal.get_add_self (b : Bal) (k : Nat) (d : Int) : (Bal.add b k d).get k = b.get k + d := by
+  unfold Bal.add Bal.get
+  by_cases h : b.any (·.1 == k) = true
+  · simp only [h, if_true]
+    rw [Bal.find_map_self b k d h]
+    have : ∃ y, b.find? (·.1 == k) = some y := by
+      cases hf : b.find? (·.1 == k) with
+      | some y => exact ⟨y, rfl⟩
+      | none =>
+        rw [List.find?_eq_none] at hf
+        obtain ⟨x, hx, hxk⟩ := List.any_eq_true.mp h
+        exact absurd hxk (hf x hx)
+    obtain ⟨y, hy⟩ := this
+    simp [hy]
+  · simp only [Bool.not_eq_true] at h
+    simp only [h, Bool.false_eq_true, if_false]
+    rw [Bal.find_append_none b k d h]
+    have : b.find? (·.1 == k) = none := by
+      rw [List.find?_eq_none]
+      intro x hx
+      have := List.any_eq_false.mp h x hx
+      simpa using this
+    simp [this]
+
+theorem Bal.find_map_other (b : Bal) (k k' : Nat) (d : Int) (hne : k' ≠ k) :
+    ((b.map (fun x => if x.1 == k then (x.1, x.2 + d) else x)).find? (·.1 == k'))
+      = (b.find? (·.1 == k')) := by
+  induction b with
+  | nil => rfl
+  | cons x xs ih =>
+    simp only [List.map_cons, List.find?_cons]
+    by_cases hx : (x.1 == k) = true
+    · have hk : x.1 = k := by simpa using hx
+      have h1 : (x.1 == k') = false := by
+        simp only [beq_eq_false_iff_ne, ne_eq, hk]; exact fun h => hne h.symm
+      simp only [hx, if_true, h1]
+      exact ih
+    · simp only [Bool.not_eq_true] at hx
+      simp only [hx, Bool.false_eq_true, if_false]
+      cases hk' : (x.1 == k') with
+      | true => rfl
+      | false => exact ih
+
+theorem Bal.get_add_other (b : Bal) (k k' : Nat) (d : Int) (hne : k' ≠ k) : (Bal.add b k d).get k' = b.get k' := by
+  unfold Bal.add Bal.get
+  by_cases h : b.any (·.1 == k) = true
+  · simp only [h, if_true]
+    rw [Bal.find_map_other b k k' d hne]
+  · simp only [Bool.not_eq_true] at h
+    simp only [h, Bool.false_eq_true, if_false]
+    rw [List.find?_append]
+    have : ([(k, d)] : Bal).find? (·.1 == k') = none := by
+      simp only [List.find?_cons, List.find?_nil]
+      have : (k == k') = false := by simp only [beq_eq_false_iff_ne, ne_eq]; exact fun h => hne h.symm
+      simp [this]
+    rw [this]; simp
+
+/-- effect of the hand-over on custody and on the auction book -/
+theorem handOver_effect (w w' : World) (v : Vault) (a : Nat) (hnn : 0 ≤ v.amountIn) (h : handOver w v a = some w') :
+    w'.auctionBal.get a = w.auctionBal.get a + v.amountIn ∧
+    w'.vaultBal.get a = w.vaultBal.get a - v.amountIn ∧
+    (∀ a', a' ≠ a → w'.auctionBal.get a' = w.auctionBal.get a' ∧ w'.vaultBal.get a' = w.vaultBal.get a') ∧
+    w'.poolBal = w.poolBal ∧
+    w'.auctionId = w.auctionId + 1 ∧ w'.lockedId = w.lockedId + 1 ∧
+    w'.newAuctions = w.newAuctions ++ [{ id := w.auctionId + 1, locked := w.lockedId + 1, asset := a, amount := v.amountIn }] ∧
+    w'.newLocked = w.newLocked ++ [{ id := w.lockedId + 1, orig := v.id, app := v.app, amountIn := v.amountIn, isBorrow := false }] ∧
+    w'.counter = decU64 w.counter ∧ w'.borrows = w.borrows ∧ w'.offsets = w.offsets := by
+  unfold handOver at h
+  split at h
+  · cases h
+  · simp only [Option.some.injEq] at h
+    subst h
+    simp only
+    by_cases hp : v.amountIn > 0
+    · simp only [hp, if_true]
+      refine ⟨Bal.get_add_self _ _ _, ?_, fun a' hne => ⟨Bal.get_add_other _ _ _ _ hne, Bal.get_add_other _ _ _ _ hne⟩, ?_⟩
+      · rw [Bal.get_add_self]; omega
+      · simp
+    · have h0 : v.amountIn = 0 := by omega
+      simp [h0]
+
+
+/-! ### case analysis of the per-position steps, offsets, slicing -/
+
+
+theorem vaultUnsafe_iff (e : Env) (v : Vault) (p : Product) (hp : e.product? v.prod = some p) :
+    vaultUnsafe e v = true ↔ ∃ cr, vaultCR e p v.amountIn v.totalOut = some cr ∧ cr < p.minCr := by
+  unfold vaultUnsafe vaultCRof
+  simp only [hp]
+  cases h : vaultCR e p v.amountIn v.totalOut with
+  | none => simp
+  | some cr => simp
+
+theorem liquidateVaultV2_cases (e : Env) (id : Nat) (w w' : World) (h : liquidateVaultV2 e id w = some w') :
+    w' = w ∨ ∃ v p, w.vaults.find? (·.id == id) = some v ∧ e.product? v.prod = some p ∧ vaultUnsafe e v = true ∧
+      handOver w v p.assetIn = some w' := by
+  unfold liquidateVaultV2 at h
+  split at h
+  · cases h
+  · rename_i v hf
+    simp only at h
+    split at h
+    · cases h
+    · split at h
+      · cases h
+      · split at h
+        · cases h
+        · rename_i p hp
+          split at h
+          · cases h
+          · rename_i cr hcr
+            split at h
+            · rename_i hlt
+              split at h
+              · cases h
+              · split at h
+                · cases h
+                · exact Or.inr ⟨v, p, hf, hp, vaultUnsafe_of_cr e v p cr hp hcr hlt, h⟩
+            · simp only [Option.some.injEq] at h
+              exact Or.inl h.symm
+
+theorem liquidateVaultV1_cases (e : Env) (a : Nat) (v : Vault) (w w' : World) (h : liquidateVaultV1 e a v w = some w') :
+    w' = w ∨ ∃ p, e.product? v.prod = some p ∧ vaultUnsafe e v = true ∧ handOver w v p.assetIn = some w' := by
+  unfold liquidateVaultV1 at h
+  split at h
+  · cases h
+  · split at h
+    · cases h
+    · rename_i p hp
+      split at h
+      · cases h
+      · rename_i cr hcr
+        split at h
+        · rename_i hlt
+          split at h
+          · cases h
+          · split at h
+            · cases h
+            · split at h
+              · cases h
+              · exact Or.inr ⟨p, hp, vaultUnsafe_of_cr e v p cr hp hcr hlt, h⟩
+        · simp only [Option.some.injEq] at h
+          exact Or.inl h.symm
+
+theorem handOver_removes_id (w w' : World) (v : Vault) (a : Nat) (h : handOver w v a = some w') :
+    ∀ q, q ∈ w'.vaults → q.id ≠ v.id := by
+  unfold handOver at h
+  split at h
+  · cases h
+  · simp only [Option.some.injEq] at h
+    subst h
+    intro q hq
+    simp only [List.mem_filter, bne_iff_ne, ne_eq] at hq
+    exact hq.2
+
+theorem handOver_some (w : World) (v : Vault) (a : Nat) (hb : v.amountIn ≤ w.vaultBal.get a) :
+    ∃ w', handOver w v a = some w' := by
+  unfold handOver
+  have : ¬ (v.amountIn > 0 ∧ w.vaultBal.get a < v.amountIn) := by omega
+  simp only [this, if_false]
+  exact ⟨_, rfl⟩
+
+/-- generation 2: a processed unsafe vault IS seized when liquidation and the Dutch auction are enabled for its app,
+no emergency control is on, both prices are active and the vault module holds the recorded collateral -/
+theorem liquidateVaultV2_seizes (e : Env) (id : Nat) (w : World) (v : Vault) (p : Product)
+    (hf : w.vaults.find? (·.id == id) = some v) (hp : e.product? v.prod = some p)
+    (hesm : (e.app v.app).esm = false) (hkill : (e.app v.app).kill = false)
+    (hwl : (e.app v.app).wl2 = true) (hdutch : (e.app v.app).dutch2 = true)
+    (hpi : e.priceActive p.assetIn = true) (hpo : e.priceActive p.assetOut = true)
+    (hb : v.amountIn ≤ w.vaultBal.get p.assetIn) (hu : vaultUnsafe e v = true) :
+    ∃ w', liquidateVaultV2 e id w = some w' ∧ handOver w v p.assetIn = some w' ∧ ∀ q, q ∈ w'.vaults → q.id ≠ v.id := by
+  obtain ⟨cr, hcr, hlt⟩ := (vaultUnsafe_iff e v p hp).1 hu
+  obtain ⟨w', hw'⟩ := handOver_some w v p.assetIn hb
+  refine ⟨w', ?_, hw', handOver_removes_id w w' v _ hw'⟩
+  unfold liquidateVaultV2
+  simp [hf, hesm, hkill, hwl, hdutch, hp, hcr, hlt, hpi, hpo, hw']
+
+/-- generation 1 likewise (the app is whitelisted and has auction parameters; the debt price is needed only when the
+product prices its debt by the oracle) -/
+theorem liquidateVaultV1_seizes (e : Env) (a : Nat) (w : World) (v : Vault) (p : Product)
+    (happ : v.app = a) (hp : e.product? v.prod = some p) (hauc : (e.app a).auc1 = true)
+    (hpi : e.priceActive p.assetIn = true) (hpo : p.outOracle = true → e.priceActive p.assetOut = true)
+    (hb : v.amountIn ≤ w.vaultBal.get p.assetIn) (hu : vaultUnsafe e v = true) :
+    ∃ w', liquidateVaultV1 e a v w = some w' ∧ handOver w v p.assetIn = some w' ∧ ∀ q, q ∈ w'.vaults → q.id ≠ v.id := by
+  obtain ⟨cr, hcr, hlt⟩ := (vaultUnsafe_iff e v p hp).1 hu
+  obtain ⟨w', hw'⟩ := handOver_some w v p.assetIn hb
+  refine ⟨w', ?_, hw', handOver_removes_id w w' v _ hw'⟩
+  unfold liquidateVaultV1
+  have h1 : (v.app != a) = false := by simp [happ]
+  have h2 : (p.outOracle && !e.priceActive p.assetOut) = false := by
+    cases ho : p.outOracle with
+    | false => simp
+    | true => simp [hpo ho]
+  simp [h1, hp, hcr, hlt, h2, hauc, hpi, hw']
+
+/-! offsets -/
+theorem Offsets.get?_set_self (o : Offsets) (k v : Nat) : (Offsets.set o k v).get? k = some v := by
+  unfold Offsets.set Offsets.get?
+  by_cases h : o.any (·.1 == k) = true
+  · simp only [h, if_true]
+    induction o with
+    | nil => simp at h
+    | cons x xs ih =>
+      simp only [List.map_cons, List.find?_cons]
+      cases hx : (x.1 == k) with
+      | true => simp
+      | false =>
+        simp only [List.any_cons, hx, Bool.false_or] at h
+        simp only [Bool.false_eq_true, if_false, hx]
+        exact ih h
+  · simp only [Bool.not_eq_true] at h
+    simp only [h, Bool.false_eq_true, if_false]
+    have : (o ++ [(k, v)]).find? (·.1 == k) = some (k, v) := by
+      induction o with
+      | nil => simp
+      | cons x xs ih =>
+        simp only [List.any_cons, Bool.or_eq_false_iff] at h
+        simp only [List.cons_append, List.find?_cons, h.1]
+        exact ih h.2
+    rw [this]; rfl
+
+/-- the pass stores the end of its range as the new offset — computed from the COUNTER, whatever the list is -/
+theorem vaultPass_offset (batch key off : Nat) (f : Vault → World → Option World) (w w' : World)
+    (h : vaultPass batch key off f w = some w') :
+    w'.offsets.get? key = some (sweepBoundsI (toGoInt w.counter) (toGoInt off) (toGoInt batch)).2.toNat := by
+  unfold vaultPass at h
+  simp only at h
+  split at h
+  · cases h
+  · simp only [Option.some.injEq] at h
+    subst h
+    exact Offsets.get?_set_self _ _ _
+
+/-- … and panics exactly when the range computed from the counter does not fit the list -/
+theorem vaultPass_none_iff (batch key off : Nat) (f : Vault → World → Option World) (w : World) :
+    vaultPass batch key off f w = none ↔
+      goSlice w.vaults (sweepBoundsI (toGoInt w.counter) (toGoInt off) (toGoInt batch)).1
+        (sweepBoundsI (toGoInt w.counter) (toGoInt off) (toGoInt batch)).2 = none := by
+  unfold vaultPass
+  simp only
+  split
+  · rename_i h; simp [h]
+  · rename_i sl h; simp [h]
+
+theorem goSlice_none_iff {α} (l : List α) (cnt off batch : Int) (hc : 0 ≤ cnt) :
+    goSlice l (sweepBoundsI cnt off batch).1 (sweepBoundsI cnt off batch).2 = none ↔
+      (l.length : Int) < (sweepBoundsI cnt off batch).2 := by
+  have hb := sweepBoundsI_bounds cnt off batch hc
+  unfold goSlice
+  constructor
+  · intro h
+    split at h
+    · cases h
+    · rename_i hn; omega
+  · intro h
+    have : ¬ (0 ≤ (sweepBoundsI cnt off batch).1 ∧ (sweepBoundsI cnt off batch).1 ≤ (sweepBoundsI cnt off batch).2 ∧
+        (sweepBoundsI cnt off batch).2 ≤ (l.length : Int)) := by omega
+    simp only [this, if_false]
+
+theorem goSlice_neg {α} (l : List α) (cnt off batch : Int) (hc : cnt < 0) :
+    goSlice l (sweepBoundsI cnt off batch).1 (sweepBoundsI cnt off batch).2 = none := by
+  have h1 : ∀ o, sliceBoundsI cnt o batch = (cnt, cnt) := by
+    intro o
+    unfold sliceBoundsI
+    have h : o ≥ cnt ∨ o < 0 ∨ batch < 0 := by omega
+    simp [h]
+  have : (sweepBoundsI cnt off batch).1 < 0 := by
+    unfold sweepBoundsI
+    simp only [h1, if_true]
+    exact hc
+  unfold goSlice
+  have : ¬ (0 ≤ (sweepBoundsI cnt off batch).1 ∧ (sweepBoundsI cnt off batch).1 ≤ (sweepBoundsI cnt off batch).2 ∧
+        (sweepBoundsI cnt off batch).2 ≤ (l.length : Int)) := by omega
+  simp only [this, if_false]
+
+
+
+/-! ### block hooks and messages -/
+
+
+def Outcome.world? : Outcome → Option World
+  | .ok w => some w
+  | .aborted w => some w
+  | .panic => none
+
+theorem fold_inv (P : World → Prop) (f : Vault → World → Option World)
+    (hf : ∀ v w w', P w → f v w = some w' → P w') (sl : List Vault) (w : World) (h : P w) :
+    P (sl.foldl (fun acc v => applyIfNoError (f v) acc) w) := by
+  induction sl generalizing w with
+  | nil => exact h
+  | cons v rest ih =>
+    simp only [List.foldl_cons]
+    apply ih
+    unfold applyIfNoError
+    cases hfv : f v w with
+    | none => exact h
+    | some w1 => exact hf v w w1 h hfv
+
+theorem handOver_borrows (w w' : World) (v : Vault) (a : Nat) (h : handOver w v a = some w') : w'.borrows = w.borrows := by
+  unfold handOver at h
+  split at h
+  · cases h
+  · simp only [Option.some.injEq] at h; subst h; rfl
+
+theorem vaultPass_borrows (batch key off : Nat) (f : Vault → World → Option World)
+    (hf : ∀ v w w', f v w = some w' → w'.borrows = w.borrows) (w w' : World)
+    (h : vaultPass batch key off f w = some w') : w'.borrows = w.borrows := by
+  unfold vaultPass at h
+  simp only at h
+  split at h
+  · cases h
+  · simp only [Option.some.injEq] at h
+    subst h
+    exact fold_inv (fun x => x.borrows = w.borrows) f (fun v a b hp hfv => by rw [hf v a b hfv]; exact hp) _ w rfl
+
+theorem liquidateVaultV2_borrows (e : Env) (id : Nat) (w w' : World) (h : liquidateVaultV2 e id w = some w') :
+    w'.borrows = w.borrows := by
+  cases liquidateVaultV2_cases e id w w' h with
+  | inl h => rw [h]
+  | inr h => obtain ⟨v, p, _, _, _, ho⟩ := h; exact handOver_borrows w w' v _ ho
+
+theorem KeepsB.trans {e : Env} {a b c : World} (h1 : KeepsB e a b) (h2 : KeepsB e b c) : KeepsB e a c :=
+  fun x hx hl hs => h2 x (h1 x hx hl hs) hl hs
+
+/-- generation 2 block hook: whatever it did (completed or aborted in the borrow loop), every vault that disappeared
+was unsafe and every unflagged safe borrow is untouched -/
+theorem blockV2_safe (fix : Bool) (e : Env) (batch : Nat) (w w' : World) (hn : NodupIds w) (hb : NodupB w)
+    (h : (blockV2 fix e batch w).world? = some w') : Removes e w w' ∧ KeepsB e w w' := by
+  unfold blockV2 at h
+  simp only at h
+  split at h
+  · cases h
+  · rename_i w1 hvp
+    have hr1 : Removes e w w1 :=
+      vaultPass_removes e w.vaults batch 0 _ (fun v => liquidateVaultV2 e v.id)
+        (fun v _ a b hsub hfv => liquidateVaultV2_removes e w.vaults hn v.id a b hsub hfv) w w1 (fun _ h => h) hvp
+    have hb1 : w1.borrows = w.borrows :=
+      vaultPass_borrows batch 0 _ _ (fun v a b hfv => liquidateVaultV2_borrows e v.id a b hfv) w w1 hvp
+    have hnb1 : NodupB w1 := by unfold NodupB; rw [hb1]; exact hb
+    unfold borrowPassV2 at h
+    simp only at h
+    split at h
+    · cases h
+    · have hspec := borrowLoopV2_spec e ‹List Nat› w1 hnb1
+      split at h
+      · rename_i leak hl
+        rw [hl] at hspec
+        simp only [Outcome.world?, Option.some.injEq] at h
+        subst h
+        refine ⟨⟨fun q hq => hr1.1 q (by rw [← hspec.1]; exact hq), fun q hq hnq => hr1.2 q hq (by rw [← hspec.1]; exact hnq)⟩, ?_⟩
+        intro b hbm hl' hs
+        exact hspec.2 b (by rw [hb1]; exact hbm) hl' hs
+      · rename_i w2 hl
+        rw [hl] at hspec
+        simp only [Outcome.world?, Option.some.injEq] at h
+        subst h
+        refine ⟨⟨fun q hq => hr1.1 q (by rw [← hspec.1]; exact hq), fun q hq hnq => hr1.2 q hq (by rw [← hspec.1]; exact hnq)⟩, ?_⟩
+        intro b hbm hl' hs
+        exact hspec.2 b (by rw [hb1]; exact hbm) hl' hs
+
+theorem appsLoopV1_removes (e : Env) (batch : Nat) (L : List Vault) (hL : (L.map (·.id)).Nodup) (apps : List App) (w w' : World)
+    (hsub : ∀ q, q ∈ w.vaults → q ∈ L) (h : appsLoopV1 e batch apps w = some w') : Removes e w w' := by
+  induction apps generalizing w with
+  | nil =>
+    unfold appsLoopV1 at h
+    simp only [Option.some.injEq] at h; subst h; exact Removes.refl e w
+  | cons a rest ih =>
+    unfold appsLoopV1 at h
+    split at h
+    · exact ih w hsub h
+    · simp only at h
+      split at h
+      · cases h
+      · rename_i w1 hvp
+        have hr1 : Removes e w w1 :=
+          vaultPass_removes e L batch a.id _ (fun v => liquidateVaultV1 e a.id v)
+            (fun v hv x y hs hfv => liquidateVaultV1_removes e L hL a.id v x y hs hv hfv) w w1 hsub hvp
+        exact Removes.trans hr1 (ih w1 (fun q hq => hsub q (hr1.1 q hq)) h)
+
+/-- generation 1 block hook -/
+theorem blockV1_safe (e : Env) (batch : Nat) (w w' : World) (hn : NodupIds w)
+    (h : (blockV1 e batch w).world? = some w') : Removes e w w' := by
+  unfold blockV1 at h
+  split at h
+  · cases h
+  · rename_i w1 hl
+    have hr := appsLoopV1_removes e batch w.vaults hn _ w w1 (fun _ h => h) hl
+    simp only at h
+    split at h
+    · cases h
+    · simp only [Outcome.world?, Option.some.injEq] at h
+      subst h
+      exact hr
+
+/-- generation 2 liquidate message (any sender, any target) -/
+theorem msgLiquidateV2_safe (e : Env) (liqType id : Nat) (w w' : World) (hn : NodupIds w) (hb : NodupB w)
+    (h : msgLiquidateV2 e liqType id w = some w') : Removes e w w' ∧ KeepsB e w w' := by
+  unfold msgLiquidateV2 at h
+  split at h
+  · refine ⟨liquidateVaultV2_removes e w.vaults hn id w w' (fun _ h => h) h, ?_⟩
+    have := liquidateVaultV2_borrows e id w w' h
+    intro b hbm _ _; rw [this]; exact hbm
+  · split at h
+    · have hfr := liquidateBorrowV2_frame e id w
+      have hk := liquidateBorrowV2_keeps e id w hb
+      split at h
+      · rename_i w2 hl
+        simp only [Option.some.injEq] at h
+        subst h
+        rw [hl] at hfr hk
+        have hv : w2.vaults = w.vaults := hfr.1
+        refine ⟨⟨fun q hq => by rw [← hv]; exact hq, fun q hq hnq => absurd (by rw [hv]; exact hq) hnq⟩, hk.1⟩
+      · cases h
+    · simp only [Option.some.injEq] at h; subst h
+      exact ⟨Removes.refl e w, fun b hbm _ _ => hbm⟩
+
+/-- generation 1 liquidate-vault message -/
+theorem msgLiquidateVaultV1_safe (e : Env) (app id : Nat) (w w' : World) (hn : NodupIds w)
+    (h : msgLiquidateVaultV1 e app id w = some w') : Removes e w w' := by
+  unfold msgLiquidateVaultV1 at h
+  simp only at h
+  split at h
+  · cases h
+  · split at h
+    · cases h
+    · split at h
+      · cases h
+      · rename_i v hf
+        exact liquidateVaultV1_removes e w.vaults hn app v w w' (fun _ h => h) (find_id_eq hf).2 h
 
 
 end Comdex.Liquidation
